@@ -25,7 +25,7 @@ func H(n string) string { return fmt.Sprintf(`namespace "urn:%s"; prefix %s;`, n
 
 func schema(tag string) []dump.File {
 	return []dump.File{
-		{Name: "a.yang", Text: `module a { ` + H("a") + ` typedef t { type int8 { range "1..9"; } default 3; } identity base; identity d1 { base base; } grouping g { leaf gl { type t; } list gli { key k; leaf k { type string; } } } container c { uses g; leaf x { type string; default "` + tag + `"; } } leaf r { type identityref { base base; } } rpc op { input { leaf oi { type t; } } } }`},
+		{Name: "a.yang", Text: `module a { ` + H("a") + ` typedef t { type int8 { range "1..9"; } default 3; } identity base; identity d1 { base base; } grouping g { leaf gl { type t; } list gli { key k; leaf k { type string; } } } container c { uses g; leaf x { type string; default "` + tag + `"; } } leaf r { type identityref { base base; } } rpc op { input { leaf oi { type t; } } } leaf p8 { type int8; } leaf pu { type uint64; } leaf mm { type int8 { range "min..5 | 7..max"; } } leaf mu { type uint64 { range "1..max"; } } leaf ml { type string { length "min..9 | 11..max"; } } leaf md { type decimal64 { fraction-digits 3; range "min..0 | 1.5..max"; } } }`},
 		{Name: "b.yang", Text: `module b { ` + H("b") + ` import a { prefix a; } identity d2 { base a:base; } augment /a:c { leaf y { type a:t; } container z { uses a:g; } } container bc { config false; uses a:g; leaf e { type enumeration { enum one; enum two { value 5; } } } } deviation /a:c/a:x { deviate add { units u; } } }`},
 	}
 }
@@ -428,7 +428,7 @@ func wide(tag string) []dump.File {
  typedef d { type decimal64 { fraction-digits 2; range "1.5..2.5"; } } identity base; identity d1 { base base; } identity d2 { base d1; base x:xb; }
  grouping g { leaf gl { type t; must "1 = 1"; w:ext "` + tag + `"; } list gli { key k; unique v; leaf k { type string; } leaf v { type u; } min-elements 1; max-elements 9; ordered-by user; } leaf-list gll { type d; default 1.5; default 2.5; } }
  container c { presence p; uses g; leaf x { type string; default "` + tag + `"; if-feature f; } choice ch { default s; leaf s { type string; } case k { leaf kk { type leafref { path "../x"; } } anydata ad; anyxml ax; } } action act { input { leaf ai { type t; } } output { leaf ao { type identityref { base base; } } } } notification cn { leaf cnl { type empty; } } }
- leaf r { type identityref { base base; } } leaf ii { type instance-identifier { require-instance false; } } leaf bo { type boolean; mandatory true; } leaf bi { type binary { length "2..4"; } }
+ leaf r { type identityref { base base; } } leaf ii { type instance-identifier { require-instance false; } } leaf bo { type boolean; mandatory true; } leaf bi { type binary { length "2..4"; } } leaf p8 { type int8; } leaf mm { type int16 { range "min..5 | 7..max"; } } leaf mu { type uint32 { range "1..max"; } } leaf ml { type string { length "min..9 | 11..max"; } } leaf md { type decimal64 { fraction-digits 3; range "min..0 | 1.5..max"; } }
  rpc op { input { leaf oi { type t; } } output { uses g; } } notification n { uses g; }
  augment /w:c { when "x = 1"; leaf wy { type t; } } deviation /w:c/w:x { deviate add { units uu; } } deviation /w:ii { deviate not-supported; } deviation /w:c/w:gli { deviate replace { max-elements 5; } }
 }`},
